@@ -177,6 +177,7 @@ fn space_operator(
         OK::LBrack | OK::LParen => match token_type_by_idx(token_index.wrapping_sub(1)) {
             Some(
                 TT::Identifier
+                | TT::TextLiteral(_)
                 | TT::Keyword(
                     KeywordKind::Class
                     | KeywordKind::Abstract
